@@ -184,10 +184,23 @@ pub fn generate(o: &GenOpts) -> Vec<Sample> {
                         (d, d / 5.0, if (i + c) % 3 == 0 { 0.002 } else { 0.0 }, if (i + c) % 4 == 0 { 0.003 } else { 0.0 })
                     }
                 };
-                mutate(&mut r, b, snp, indel, nrun, iu)
+                // iupac: later samples are derived from the REFERENCE SAMPLE's contig (which carries N runs and IUPAC codes), so that
+                // reference and target share N runs with substitutions close by, not from the clean base sequence
+                let src: Vec<u8> = if o.kind == "iupac" && c < samples[0].contigs.len() { samples[0].contigs[c].seq.clone() } else { b.clone() };
+                mutate(&mut r, &src, snp, indel, nrun, iu)
             };
             if i == 0 && o.kind == "iupac" {
                 seq = mutate(&mut r, b, 0.0, 0.0, 0.003, 0.006);
+            }
+            if o.kind == "iupac" && c % 3 != 0 {
+                // symbol palettes per contig, so that segments exist whose LARGEST code sits exactly on a packing boundary:
+                // contig 1: nothing above 6 (Y), contig 2: nothing above 5 (R); contig 0 keeps all of 5..15
+                let top = if c % 3 == 1 { 6u8 } else { 5u8 };
+                for (j, x) in seq.iter_mut().enumerate() {
+                    if *x > top && *x < 16 {
+                        *x = if top == 6 && j % 2 == 0 { 6 } else { 5 };
+                    }
+                }
             }
             if i > 0 && (o.kind == "rc" || (o.kind == "basic" && (i + c) % 4 == 1)) && r.gen_bool(0.6) {
                 seq = rc(&seq);
